@@ -86,6 +86,39 @@ UNITS = {
                                           "py2_decode_raise", "C07_set_vt_source", "C07_foreign_source", "C06_normal_reject_source",
                                           "C06_normal_accept_source", "C01_normal_source", "C01_fast_source"]},
     },
+    "graph": {
+        "functions": translate_minipy.GRAPH_FUNC_NAMES,
+        "generate": lambda repo, d: translate_minipy.generate_graph(repo, os.path.join(d, "GraphGen.v")),
+        "refuse": translate_minipy.Refuse,
+        "generated": "GraphGen.v",
+        "stages": [["GraphRepr.v"],
+                   ["KmerDeepGenProofs.v", "VerticesGenProofs.v", "LeavesGenProofs.v", "LmapGenProofs.v", "ValidGraphGenProofs.v"],
+                   ["GraphGenProofs.v"]],
+        "deps": ["Py.v", "Kmer.v", "Convert.v", "Graph.v", "Spec.v", "GraphSpec.v", "MiniPyG.v", "MiniPyGEnc.v", "Proofs/MiniPyGLemmas.v",
+                 "Proofs/KmerProofs.v", "Proofs/GraphProofs.v", "Proofs/ReprProofs.v", "Proofs/TrimMapProofs.v"],
+        "theorems": {"KmerDeepGenProofs.v": ["obtain_latters_gen", "obtain_formers_gen", "get_complete_accessor_gen"],
+                     "VerticesGenProofs.v": ["obtain_vertices_gen", "accessor_to_latter_map_gen"],
+                     "LeavesGenProofs.v": ["leaves_acc_gen", "leaves_map_gen", "leaves_both_gen", "leaves_none_gen"],
+                     "LmapGenProofs.v": ["remove_useless_gen", "latter_map_to_accessor_gen"],
+                     "ValidGraphGenProofs.v": ["connect_valid_graph_gen", "connect_valid_graph_gen_bool", "find_vertices_gen"],
+                     "GraphGenProofs.v": ["py3_obtain_latters", "py3_obtain_formers", "py3_get_complete_accessor", "py3_obtain_vertices",
+                                          "py3_accessor_to_latter_map", "py3_leaves_acc", "py3_leaves_map", "py3_remove_useless",
+                                          "py3_latter_map_to_accessor", "py3_connect_valid_graph", "py3_connect_valid_graph_bool",
+                                          "C13_complete_source", "C14_latter_map_roundtrip_source", "C14_vertices_source",
+                                          "C14_leaves_agree_source", "C11_valid_graph_source", "C11_valid_graph_empty_source"]},
+    },
+    "coding": {
+        "enabled": False,                      # switched on once every proof file of the unit is complete
+        "functions": translate_minipy.CODING_FUNCS,
+        "generate": lambda repo, d: translate_minipy.generate_coding(repo, os.path.join(d, "CodingGen.v")),
+        "refuse": translate_minipy.Refuse,
+        "generated": "CodingGen.v",
+        "stages": [["CodingRepr.v"], ["CodingKmerGenProofs.v", "CodingVerticesGenProofs.v", "CodingGraphGenProofs.v"],
+                   ["CodingKnotGenProofs.v"]],
+        "deps": ["Py.v", "Kmer.v", "Convert.v", "Graph.v", "Spec.v", "GraphSpec.v", "MiniPyH.v", "MiniPyHEnc.v", "Proofs/MiniPyHLemmas.v",
+                 "Proofs/KmerProofs.v", "Proofs/GraphProofs.v", "Proofs/GenerateProofs.v", "Proofs/GeneratedProofs.v"],
+        "theorems": {},
+    },
     "biofilter": {
         "functions": translate_minipy.BIOFILTER_FUNCS,
         "generate": lambda repo, d: translate_minipy.generate_biofilter(repo, os.path.join(d, "BiofilterGen.v")),
@@ -232,8 +265,9 @@ def run_unit(name, repo, use_cache=True, keep=None):
                     out["failed_file"] = f
                     return out
         out.update(proved=True, closed=closed, seconds=round(time.time() - t0, 1))
-        if name in ("operation", "biofilter", "coder"):
-            sem = {"operation": semantics_check, "biofilter": semantics_check_filter, "coder": semantics_check_coder}[name](
+        if name in ("operation", "biofilter", "coder", "graph", "coding"):
+            sem = {"operation": semantics_check, "biofilter": semantics_check_filter, "coder": semantics_check_coder,
+                   "graph": semantics_check_graph, "coding": semantics_check_coding}[name](
                 work, repo, int(os.environ.get("VERIF_SEED", "0") or 0))
             out["minipy_semantics_vs_cpython"] = sem
             if sem.get("error") or sem.get("disagreements") or not sem.get("compared"):
@@ -497,6 +531,222 @@ def semantics_check_coder(work, repo, seed=0, n=160):
         res["compared"] += 1
         res["raised"] += int(w[:1] == [1])
         res["per_function"][f] = res["per_function"].get(f, 0) + 1
+        if g != w and len(res["disagreements"]) < 5:
+            res["disagreements"].append({"function": f, "args": args, "minipy": g[:40], "cpython": w[:40]})
+    return res
+
+
+def _coq_gval(v):
+    """JSON-able argument -> MiniPyG value: {"arr": ..}, {"arr2": ..}, {"barr": [bools]}, {"dict": [[k, [..]], ..]}"""
+    if isinstance(v, dict) and "barr" in v:
+        return "(VArr [%s])" % "; ".join("(VBool %s)" % ("true" if x else "false") for x in v["barr"])
+    if isinstance(v, dict) and "dict" in v:
+        return "(VDict [%s])" % "; ".join("((VInt (%d)), (VList [%s]))" % (k, "; ".join("(VInt (%d))" % x for x in ls))
+                                           for k, ls in v["dict"])
+    if isinstance(v, dict) and "obj" in v:
+        return "VOpaque"
+    return _coq_aval(v)
+
+
+def semantics_check_graph(work, repo, seed=0, n=170):
+    """the graph functions: MiniPyG interpreter (vm_compute) against CPython + NumPy"""
+    import random
+    rng = random.Random(1000003 * seed + 53)
+    cases = []
+    for _ in range(n):
+        k = rng.choice([1, 1, 2, 2, 3])
+        nn = 4 ** k
+        keep = rng.choice([0.3, 0.6, 0.9, 1.0])
+        rows = [[(4 * v + j) % nn if rng.random() < keep else -1 for j in range(4)] if rng.random() < 0.8 else [-1] * 4 for v in range(nn)]
+        lm = [[v, [x for x in r if x >= 0]] for v, r in enumerate(rows) if any(x >= 0 for x in r)]
+        f = rng.choice(["obtain_latters", "obtain_formers", "get_complete_accessor", "obtain_vertices", "obtain_leaf_vertices",
+                        "obtain_leaf_vertices", "accessor_to_latter_map", "remove_useless", "latter_map_to_accessor",
+                        "latter_map_to_accessor", "connect_valid_graph", "connect_valid_graph", "find_vertices"])
+        if f in ("obtain_latters", "obtain_formers"):
+            args = [rng.randrange(nn), k]
+        elif f == "get_complete_accessor":
+            args = [rng.choice([1, 2]), rng.random() < 0.3]
+        elif f == "obtain_vertices":
+            args = [{"arr2": rows}]
+        elif f == "obtain_leaf_vertices":
+            how = rng.choice(["acc", "acc", "map", "map", "both", "none"])
+            args = [rng.randrange(-2, nn + 1), rng.randint(0, 3),
+                    {"arr2": rows} if how in ("acc", "both") else None, {"dict": lm} if how in ("map", "both") else None]
+        elif f == "accessor_to_latter_map":
+            args = [{"arr2": rows}, rng.random() < 0.3]
+        elif f == "remove_useless":
+            args = [{"dict": lm}, rng.randint(1, 4), rng.random() < 0.3]
+        elif f == "latter_map_to_accessor":
+            args = [{"dict": lm}, k, rng.choice([None, None, 1, 2, 3]), rng.random() < 0.3]
+        elif f == "connect_valid_graph":
+            mask = [1 if rng.random() < rng.choice([0.0, 0.5, 0.9]) else 0 for _ in range(nn)]
+            args = [k, {"barr": [bool(x) for x in mask]} if rng.random() < 0.5 else {"arr": mask}, rng.random() < 0.3]
+        else:
+            args = [rng.choice([1, 2]), {"obj": rng.choice(["AA", "C", "GT", "ACGTA"])}, rng.random() < 0.3]
+        cases.append((f, args))
+    lines = ["From Coq Require Import String.", "From DSW Require Import MiniPyG MiniPyGEnc Graph.", "From DSWGen Require Import GraphGen.",
+             "Open Scope Z_scope.",
+             "(* callees outside the generated module: number_to_dna (int path) and a filter that rejects strings containing a motif *)",
+             "Definition ce_sem (motif : list Z) (fuel : nat) : string -> list val -> res val := fun f args =>",
+             '  if String.eqb f "bio_filter.valid" then match args with [VStr s] => Ret (VBool (negb (infixZ motif s))) | _ => Stuck end',
+             '  else if String.eqb f "number_to_dna" then match args with [VInt v; VInt k] => Ret (VStr (kmer_string (Z.to_nat k) v)) | _ => Stuck end',
+             "  else call_in graph_module fuel f args."]
+    for f, args in cases:
+        if f == "find_vertices":
+            motif = "[%s]" % "; ".join(str(ord(c)) for c in args[1]["obj"])
+            lines.append('Eval vm_compute in enc_res (run_fun (ce_sem %s 300) 300 find_vertices_def [%s]).'
+                         % (motif, "; ".join(_coq_gval(a) for a in args)))
+        else:
+            lines.append('Eval vm_compute in enc_res (call_in graph_module 300 "%s"%%string [%s]).'
+                         % (f, "; ".join(_coq_gval(a) for a in args)))
+    open(os.path.join(work, "SemCasesGraph.v"), "w").write("\n".join(lines) + "\n")
+    rc, log = _compile(work, "SemCasesGraph.v")
+    if rc != 0:
+        return {"cases": len(cases), "compared": 0, "error": log[-600:]}
+    got = [[int(x) for x in re.findall(r"-?\d+", blk.split(": list Z")[0])] for blk in log.split("= ")[1:]]
+    if len(got) != len(cases):
+        return {"cases": len(cases), "compared": 0, "error": "parsed %d answers for %d cases" % (len(got), len(cases))}
+    prog = ("import sys, json, io, contextlib\nsys.path.insert(0, %r)\nimport numpy as np\nimport dsw\n"
+            "EX = {ValueError: 1, IndexError: 2, TypeError: 3, OverflowError: 4, KeyError: 5}\n"
+            "class F(object):\n"
+            "    def __init__(self, m): self.m = m\n"
+            "    def valid(self, dna_string): return self.m not in dna_string\n"
+            "def conv(a):\n"
+            "    if isinstance(a, dict):\n"
+            "        if 'arr2' in a: return np.array(a['arr2'], dtype=int).reshape((-1, 4))\n"
+            "        if 'arr' in a: return np.array(a['arr'], dtype=int)\n"
+            "        if 'barr' in a: return np.array(a['barr'], dtype=bool)\n"
+            "        if 'dict' in a: return {k: list(v) for k, v in a['dict']}\n"
+            "        if 'obj' in a: return F(a['obj'])\n"
+            "    return a\n"
+            "def enc(v):\n"
+            "    if isinstance(v, np.ndarray):\n"
+            "        out = [7, len(v)]\n"
+            "        for x in v: out += enc(x)\n"
+            "        return out\n"
+            "    if isinstance(v, dict):\n"
+            "        out = [8, len(v)]\n"
+            "        for k, x in v.items(): out += enc(k) + enc(x)\n"
+            "        return out\n"
+            "    if isinstance(v, (bool, np.bool_)): return [5, int(v)]\n"
+            "    if isinstance(v, (int, np.integer)): return [0, int(v)]\n"
+            "    if isinstance(v, str): return [1, len(v)] + [ord(c) for c in v]\n"
+            "    if isinstance(v, (list, tuple)):\n"
+            "        out = [2 if isinstance(v, list) else 3, len(v)]\n"
+            "        for x in v: out += enc(x)\n"
+            "        return out\n"
+            "    return [4] if v is None else [99]\n"
+            "out = []\n"
+            "for f, a in json.load(sys.stdin):\n"
+            "    try:\n"
+            "        with contextlib.redirect_stdout(io.StringIO()):\n"
+            "            r = getattr(dsw, f)(*[conv(x) for x in a])\n"
+            "        out.append([0] + enc(r))\n"
+            "    except Exception as e:\n"
+            "        out.append([1, EX.get(type(e), 6)])\n"
+            "print(json.dumps(out))\n" % (repo,))
+    p = subprocess.run(["/venv/bin/python", "-c", prog], input=json.dumps(cases), stdout=subprocess.PIPE, stderr=subprocess.PIPE,
+                       universal_newlines=True, env=dict(os.environ, PYTHONHASHSEED="0"))
+    if p.returncode != 0:
+        return {"cases": len(cases), "compared": 0, "error": p.stderr[-600:]}
+    want = json.loads(p.stdout)
+    res = {"cases": len(cases), "compared": 0, "stuck": 0, "fuel": 0, "disagreements": [], "per_function": {}, "raised": 0}
+    for (f, args), g, w in zip(cases, got, want):
+        if g[:1] == [3]:
+            res["stuck"] += 1
+            res.setdefault("stuck_functions", [])
+            if f not in res["stuck_functions"]:
+                res["stuck_functions"].append(f)
+            continue
+        if g[:1] == [2]:
+            res["fuel"] += 1
+            continue
+        res["compared"] += 1
+        res["raised"] += int(w[:1] == [1])
+        res["per_function"][f] = res["per_function"].get(f, 0) + 1
+        if g != w and len(res["disagreements"]) < 5:
+            res["disagreements"].append({"function": f, "args": args, "minipy": g[:40], "cpython": w[:40]})
+    return res
+
+
+def semantics_check_coding(work, repo, seed=0, n=90):
+    """connect_coding_graph: MiniPyH interpreter (vm_compute) against CPython + NumPy"""
+    import random
+    sys.path.insert(0, HERE)
+    if repo not in sys.path:
+        sys.path.insert(1, repo)            # harness/gen.py imports dsw (only its pure-Python mask generators are used here)
+    import gen
+    rng = random.Random(1000003 * seed + 67)
+    cases = []
+    for i in range(n):
+        k = rng.choice([1, 2, 2, 2, 3])
+        nn = 4 ** k
+        kind = i % 4
+        if kind == 0:
+            mask = gen.funnel_mask(rng, k) if k >= 2 else [1] * nn
+        elif kind == 1:
+            mask = gen.chain_mask(rng, k)
+        else:
+            dens = rng.choice([0.2, 0.4, 0.6, 0.8, 0.95, 1.0, 0.0])
+            mask = [1 if rng.random() < dens else 0 for _ in range(nn)]
+        t = rng.choice([1, 1, 1, 2, 2, 3, 4])
+        arg = {"barr": [bool(x) for x in mask]} if rng.random() < 0.4 else {"arr": mask}
+        cases.append(("connect_coding_graph", [k, arg, t, rng.random() < 0.25]))
+    lines = ["From DSW Require Import MiniPyH MiniPyHEnc.", "From DSWGen Require Import CodingGen.", "Open Scope Z_scope."]
+    for f, args in cases:
+        lines.append('Eval vm_compute in enc_res (call_in coding_module 400 "%s"%%string [%s]).'
+                     % (f, "; ".join(_coq_gval(a) for a in args)))
+    open(os.path.join(work, "SemCasesCoding.v"), "w").write("\n".join(lines) + "\n")
+    rc, log = _compile(work, "SemCasesCoding.v")
+    if rc != 0:
+        return {"cases": len(cases), "compared": 0, "error": log[-600:]}
+    got = [[int(x) for x in re.findall(r"-?\d+", blk.split(": list Z")[0])] for blk in log.split("= ")[1:]]
+    if len(got) != len(cases):
+        return {"cases": len(cases), "compared": 0, "error": "parsed %d answers for %d cases" % (len(got), len(cases))}
+    prog = ("import sys, json, io, contextlib\nsys.path.insert(0, %r)\nimport numpy as np\nimport dsw\n"
+            "EX = {ValueError: 1, IndexError: 2, TypeError: 3, OverflowError: 4, KeyError: 5}\n"
+            "def conv(a):\n"
+            "    if isinstance(a, dict):\n"
+            "        if 'arr' in a: return np.array(a['arr'], dtype=int)\n"
+            "        if 'barr' in a: return np.array(a['barr'], dtype=bool)\n"
+            "    return a\n"
+            "def enc(v):\n"
+            "    if isinstance(v, np.ndarray):\n"
+            "        out = [7, len(v)]\n"
+            "        for x in v: out += enc(x)\n"
+            "        return out\n"
+            "    if isinstance(v, (bool, np.bool_)): return [5, int(v)]\n"
+            "    if isinstance(v, (int, np.integer)): return [0, int(v)]\n"
+            "    if isinstance(v, (list, tuple)):\n"
+            "        out = [2 if isinstance(v, list) else 3, len(v)]\n"
+            "        for x in v: out += enc(x)\n"
+            "        return out\n"
+            "    return [4] if v is None else [99]\n"
+            "out = []\n"
+            "for f, a in json.load(sys.stdin):\n"
+            "    try:\n"
+            "        with contextlib.redirect_stdout(io.StringIO()):\n"
+            "            r = getattr(dsw, f)(*[conv(x) for x in a])\n"
+            "        out.append([0] + enc(r))\n"
+            "    except Exception as e:\n"
+            "        out.append([1, EX.get(type(e), 6)])\n"
+            "print(json.dumps(out))\n" % (repo,))
+    p = subprocess.run(["/venv/bin/python", "-c", prog], input=json.dumps(cases), stdout=subprocess.PIPE, stderr=subprocess.PIPE,
+                       universal_newlines=True, env=dict(os.environ, PYTHONHASHSEED="0"))
+    if p.returncode != 0:
+        return {"cases": len(cases), "compared": 0, "error": p.stderr[-600:]}
+    want = json.loads(p.stdout)
+    res = {"cases": len(cases), "compared": 0, "stuck": 0, "fuel": 0, "disagreements": [], "raised": 0, "threshold1": 0}
+    for (f, args), g, w in zip(cases, got, want):
+        if g[:1] == [3]:
+            res["stuck"] += 1
+            continue
+        if g[:1] == [2]:
+            res["fuel"] += 1
+            continue
+        res["compared"] += 1
+        res["raised"] += int(w[:1] == [1])
+        res["threshold1"] += int(args[2] == 1)
         if g != w and len(res["disagreements"]) < 5:
             res["disagreements"].append({"function": f, "args": args, "minipy": g[:40], "cpython": w[:40]})
     return res
